@@ -61,7 +61,7 @@ package acrastruct
 
 // Every private key is tried, in order, on the same value and context, until one opens it.
 //@ func DecryptRotatedAcrastruct(data []byte, privateKeys []*keys.PrivateKey, additionalContext []byte) (out []byte, err error)
-//@   props C01 C02 C03 C06 C14
+//@   props C01 C02 C03 C06 C14 C15
 //@   safety
 //@   ensures err != nil ==> out == nil
 //@   ensures success-is-a-key-that-opened-it: err == nil ==> called(DecryptAcrastruct) && ret(DecryptAcrastruct)[1] == nil && sameslice(out, ret(DecryptAcrastruct)[0])
